@@ -6,16 +6,16 @@ func init() {
 	more := map[string]string{
 		"C01": "the overlay's segment kernel equals exact rational arithmetic on 5760 lattice configurations; the ghost spanning tree's union-find agrees with reachability; member counts per edge are incremented unconditionally; the re-noding routines never return their input; no expression is min/max-ed with itself. re-noding keeps every control point of a line, the final one included (all sequences of up to 4 points).",
 		"C02": "union-find of the ghost tree; the mod-2 flag machine also serves Boundary (C15).",
-		"C03": "every checking loop of the validation code is left early only with an error; no Z/M in a validity decision; Sequence.validate checks every point, the first included; validateRing applies its four checks whatever the ring length; IsSimple-style predicates never answer their fall-through value from inside the loop; an error that is only compared with nil, or dropped on its non-nil branch, is a violation; nobody constructs NoValidate. an error assigned inside a loop is looked at inside it; the slice given to rtree.BulkLoad is not read again. a loop over a filtered list indexes that list only.",
+		"C03": "every checking loop of the validation code is left early only with an error; no Z/M in a validity decision; Sequence.validate checks every point, the first included; validateRing applies its four checks whatever the ring length; IsSimple-style predicates never answer their fall-through value from inside the loop; an error that is only compared with nil, or dropped on its non-nil branch, is a violation; nobody constructs NoValidate. an error assigned inside a loop is looked at inside it; the slice given to rtree.BulkLoad is not read again. a loop over a filtered list indexes that list only. The WKB point decoder returns the empty point only for NaN NaN and builds a point only when neither ordinate is NaN (path conditions).",
 		"C04": "every raw read of the input is length-checked (no advance in between); byte order never copied from another parser; count sanity checks use at most the smallest element size; a float64 comes from one 64-bit decode; Scan rejects another geometry type; Value/AsBinary/Scan of all seven types are the documented thin wrappers. the WKB member count is the number of direct members written.",
 		"C05": "scanner mode and white-space set; numerals are rejected only by ParseFloat/NaN/Inf; every success return of UnmarshalWKT lies behind the end-of-input request; AsText wrappers. keyword tables name all seven types; multi-accumulator append helpers hand every accumulator back. the number returned for a numeral is strconv.ParseFloat's own result.",
-		"C06": "names kept out of ForeignMembers = names decoded into fields; every visited position is recorded for the 2D/3D decision; exactly stride elements of a position are used; UnmarshalJSON wrappers. a decode step succeeds only behind json.Unmarshal of its own input. pointers filled by encoding/json are nil-tested; no encoder returns pooled memory.",
+		"C06": "names kept out of ForeignMembers = names decoded into fields; every visited position is recorded for the 2D/3D decision; exactly stride elements of a position are used; UnmarshalJSON wrappers. a decode step succeeds only behind json.Unmarshal of its own input. pointers filled by encoding/json are nil-tested; no encoder returns pooled memory. No decode-into adapter re-slices what its receiver held before the call.",
 		"C07": "the bbox is marked valid only where a point was folded in; a reused sub-writer clears every sticky flag; precision ranges and ID-count are rejected by interpretation of MarshalTWKB/writeIDList; the header-only bbox reader on (min, delta) pairs with per-dimension and decimal scalings; optional headers are read in the format's order. formTWKB only after writeGeometry/writeAdditionalHeaders on the same writer. ordinates are quantised by rounding, not integer division; a reused TWKB sub-parser is reset completely. TWKB count guards scale by no more than the smallest element. the header byte the writer emits is accepted by the reader for every kind and precision. the writer's varints are canonical around every byte boundary.",
-		"C08": "single-byte/slice/fixed-width reads dominated by a sufficient length test; varint byte counts used only where n > 0; a signed count is tested < 0 before a callee computes with it; errors of every decoder step are propagated. nesting-depth counters are balanced on every successful return.",
+		"C08": "single-byte/slice/fixed-width reads dominated by a sufficient length test; varint byte counts used only where n > 0; a signed count is tested < 0 before a callee computes with it; errors of every decoder step are propagated. nesting-depth counters are balanced on every successful return. No bound check of the binary decoders does its arithmetic in an integer type narrower than 64 bits.",
 		"C09": "an existence search never answers false from inside its loop; the segment kernel and the point-on-segment predicate are exact (the latter at three scales). computed verdicts are not returned from inside a quantifier loop of the hasIntersection kernels; a PrioritySearch starts from the box of the item its pruning measures. loadTree numbers records the way the search callback decodes them; a selectively filled buffer leaves a function only re-sliced. no == on Coordinates records in the 2D kernels.",
 		"C10": "clone helpers for nested coordinate slices are deep; coordinate constructors do not return values rooted in their slice arguments. (C10.consumed) the items slice of BulkLoad is not read after the load. an extracted ring starts at its smallest edge for every position of that edge (rotateSeqs interpreted, call amount evaluated). no returned byte slice aliases a pooled buffer; a return from inside a map iteration does not depend on its element. sort.Slice comparators index the slice being sorted.",
-		"C11": "Nearest's found flag is independent of the sign of the record ID. RangeSearch as a whole on a modelled two-level tree (any traversal style); variable indexes into fixed-size local arrays are guarded.",
-		"C12": "Force2D is ForceCoordinatesType(DimXY) on every type (literally or by unfolding); Envelope.Center is the midpoint of the bounds, finite for envelopes spanning more than MaxFloat64. AsBox is ok exactly for non-empty envelopes; TransformXY is the per-axis min/max of the transformed corners.",
+		"C11": "Nearest's found flag is independent of the sign of the record ID. RangeSearch as a whole on a modelled two-level tree (any traversal style); variable indexes into fixed-size local arrays are guarded. A pure box predicate of rtree with as many comparisons per axis mirrors each comparison on the other axis.",
+		"C12": "Force2D is ForceCoordinatesType(DimXY) on every type (literally or by unfolding); Envelope.Center is the midpoint of the bounds, finite for envelopes spanning more than MaxFloat64. AsBox is ok exactly for non-empty envelopes; TransformXY is the per-axis min/max of the transformed corners. NewEnvelope of 0..3 points is the per-axis min/max whatever the order of the points.",
 		"C13": "ConvexHull wrappers; the monotone chain's sort dominates every return; the raw floats of a Sequence are not walked outside Sequence. X ordinates are never compared for equality without the Y ordinates.",
 		"C14": "centroid divisions are guarded by the total or the receiver's own IsEmpty; each term is weighted by its own element's measure; ring weights are +|A| / -|B| whatever the winding; point counts grow by 1 per point; ForceCW/ForceCCW wrappers. a length is never a bare difference. signed ring areas are ordered against zero only.",
 		"C15": "LineString.IsClosed on 0..5 points; the mod-2 flag machine of the overlay input. MultiPolygon.Boundary is exactly the rings (0..2 per member); no built-in tolerance in geom/rtree. GeometryCollection.Boundary has one element per direct member. a point member only adds src/interior labels to its vertex. GeometryCollection.Dimension / IsEmpty fold over the direct members.",
